@@ -269,6 +269,8 @@ impl RelationSet {
     }
 
     pub fn add(&mut self, r: Relation, pq: Option<(u64, u64)>) {
+        #[cfg(yamaquasi_verif)]
+        let _verif_guard = verif::AddGuard::new(self, &r, pq);
         debug_assert!(&r.x < &self.n);
         if r.cofactor == 1 {
             self.add_cycle(r);
@@ -786,6 +788,95 @@ pub fn try_factor(n: &Uint, a: Uint, b: Uint) -> Option<(Uint, Uint)> {
         }
     }
     None
+}
+
+/// Read-only access for the verification harness (compiled only with `--cfg yamaquasi_verif`).
+#[cfg(yamaquasi_verif)]
+pub mod verif {
+    use super::{Relation, RelationSet};
+
+    /// What the observer receives when `RelationSet::add` returns.
+    pub struct AddEvent {
+        pub set: *const RelationSet,
+        pub added: Relation,
+        pub pq: Option<(u64, u64)>,
+        pub cycles_before: usize,
+    }
+
+    pub struct AddGuard(Option<AddEvent>);
+
+    impl AddGuard {
+        pub fn new(set: &RelationSet, r: &Relation, pq: Option<(u64, u64)>) -> Self {
+            if !simsync::probe::has_observer() {
+                return AddGuard(None);
+            }
+            AddGuard(Some(AddEvent {
+                set: set as *const RelationSet,
+                added: r.clone(),
+                pq,
+                cycles_before: set.cycles.len(),
+            }))
+        }
+    }
+
+    impl Drop for AddGuard {
+        fn drop(&mut self) {
+            if let Some(ev) = self.0.take() {
+                if !std::thread::panicking() {
+                    simsync::probe::observe("relset_add", &ev);
+                }
+            }
+        }
+    }
+
+    impl RelationSet {
+        /// Stored single-large-prime relations, decoded from their packed form.
+        pub fn verif_partials(&self) -> Vec<(u64, Relation)> {
+            let mut v: Vec<_> = self.partial.iter().map(|(&p, r)| (p, r.unpack())).collect();
+            v.sort_by_key(|x| x.0);
+            v
+        }
+        pub fn verif_partial(&self, p: u64) -> Option<Relation> {
+            self.partial.get(&p).map(|r| r.unpack())
+        }
+        pub fn verif_partial_count(&self) -> usize {
+            self.partial.len()
+        }
+        /// Stored double-large-prime relations, decoded from their packed form.
+        pub fn verif_doubles(&self) -> Vec<((u32, u32), Relation)> {
+            self.doubles.iter().map(|(&k, r)| (k, r.unpack())).collect()
+        }
+        pub fn verif_double(&self, key: (u32, u32)) -> Option<Relation> {
+            self.doubles.get(&key).map(|r| r.unpack())
+        }
+        pub fn verif_doubles_rev(&self) -> Vec<(u32, u32)> {
+            self.doubles_rev.iter().copied().collect()
+        }
+        /// The documented invariants between the three maps.
+        pub fn verif_check_maps(&self) -> Result<(), String> {
+            if self.doubles.len() != self.doubles_rev.len() {
+                return Err(format!(
+                    "doubles has {} keys but doubles_rev has {}",
+                    self.doubles.len(),
+                    self.doubles_rev.len()
+                ));
+            }
+            for &(p, q) in self.doubles.keys() {
+                if !(p < q) {
+                    return Err(format!("doubles key ({p},{q}) is not ordered"));
+                }
+                if !self.doubles_rev.contains(&(q, p)) {
+                    return Err(format!("doubles key ({p},{q}) has no mirror in doubles_rev"));
+                }
+                if self.partial.contains_key(&(p as u64)) || self.partial.contains_key(&(q as u64)) {
+                    return Err(format!(
+                        "doubles key ({p},{q}) has a prime that is present in partial"
+                    ));
+                }
+            }
+            Ok(())
+        }
+    }
 }
 
 // A packed version of Relation.
